@@ -511,6 +511,34 @@ fn thread_op(k: usize, guards: &mut Vec<G>, w: &[&str]) -> Option<String> {
                 None => "bad-op unknown span".into(),
             }
         }
+        // the deprecated one-call forms: the property closure is handed over together with the target
+        ["evToParent", v, n, cl] => {
+            let cl = parse_closure(cl)?;
+            let invoked = Cell::new(false);
+            let name = str_of_hex(n)?;
+            #[allow(deprecated)]
+            match with_span(v, |s| {
+                Event::add_to_parent(name, s, || {
+                    cl.call(&invoked)
+                        .map(|(k, v)| (std::borrow::Cow::Owned(k), std::borrow::Cow::Owned(v)))
+                        .collect::<Vec<_>>()
+                })
+            }) {
+                Some(()) => format!("cl {}", invoked.get() as u8),
+                None => "bad-op unknown span".into(),
+            }
+        }
+        ["evToLocal", n, cl] => {
+            let cl = parse_closure(cl)?;
+            let invoked = Cell::new(false);
+            #[allow(deprecated)]
+            Event::add_to_local_parent(str_of_hex(n)?, || {
+                cl.call(&invoked)
+                    .map(|(k, v)| (std::borrow::Cow::Owned(k), std::borrow::Cow::Owned(v)))
+                    .collect::<Vec<_>>()
+            });
+            format!("cl {}", invoked.get() as u8)
+        }
         ["pushChild", v, x] => {
             let ls = LSPANS.lock().unwrap().get_or_insert_with(HashMap::new).get(*x).cloned();
             match ls {
